@@ -61,8 +61,12 @@ import "github.com/glebziz/fs_db/internal/model"
 
 // Set writes exactly marshalFile's bytes under the record key; a record that
 // cannot be encoded is reported, never written.
+// The value buffer handed to Badger on success was allocated by this very call: nothing that runs later (another
+// Set inside the same Badger transaction, a pool) can change the bytes Badger still refers to.
 //@ func (*Repo).Set
 //@   requires wf:       r != nil && r.p != nil
+//@   modifies world.kvBuf
+//@   ensures  ownbuf:   result == nil ==> fresh(world.kvBuf)
 //@   ensures  badids:   (!uuidValid(f.TxId) || !uuidValid(f.ContentId)) ==> result != nil && is(result, model.ErrInvalidFileFormat)
 
 // Round trip (lemma over the two contracts above; calls use contracts only):
